@@ -125,8 +125,28 @@ C02_VIEWS = ["sma", "cum", "min", "max", "wo", "hln", "roc", "bent", "vst", "vsc
 
 
 def jobs_spec_views(rng, tier, names, quick=14, thorough=150, nmax=8, minn=None, only_some=(), fams=None, acc=("wo", "wroll"),
-                    fmode=True, length=None, big_exact=True):
+                    fmode=True, length=None, big_exact=True, small_scope=True, ss_len=None):
     js = []
+    # exhaustive small scope: EVERY stream of length 6 (8 in the thorough tier) over a three-letter alphabet (a zero, a positive and a negative value of
+    # different magnitudes; positive letters for the positive-domain views), for every window length 1, 2, 3 — all orders of
+    # ties, zeros, sign changes, values leaving as others arrive; implementation in exact arithmetic against the definition.
+    # Deterministic: nothing is left to the PRNG for the inputs that the small-scope hypothesis says matter most.
+    import itertools
+    SS_LEN = ss_len or (6 if tier == "quick" else 8)
+    for nm in names:
+        if nm in ("pfe", "eft") or not small_scope:
+            continue
+        e0 = gen.gen_unary(random.Random(0), ECHO, nmax, [nm])
+        alpha = [F(1, 2), F(1), F(3)] if gen.needs_positive(e0) else [F(0), F(1), F(-2)]
+        wins = [n for n in (1, 2, 3) if n >= gen.CATALOGUE[nm]["minN"]] if "n" in gen.CATALOGUE[nm]["params"] else [None]
+        if not wins:
+            wins = [gen.CATALOGUE[nm]["minN"]]
+        for n in wins:
+            e = mk(nm, ECHO, gen.gen_params(random.Random(n or 0), nm, nmax, n=n))
+            for xs in itertools.product(alpha, repeat=SS_LEN):
+                j = SpecEq(e, list(xs), acc=nm in acc, only_some=nm in only_some)
+                j.small_scope = True
+                js.append(j)
     if fams and "tiny" not in fams:
         # ordinary shapes in units of 2^-40 and 2^30: an absolute threshold (epsilon, 1e-10, ...) in a view shows up there
         # (wave-4 seed C13d: WelfordRolling reported 0 while n·sigma² <= epsilon)
@@ -646,7 +666,8 @@ C11_VIEWS = ["ss", "roof", "lagf", "lagrsi", "cc", "tflex", "rflex"]
 
 
 def jobs_C11(rng, tier):
-    js = jobs_spec_views(rng, tier, C11_VIEWS, quick=10, thorough=100, nmax=9, length=None, big_exact=False)
+    js = jobs_spec_views(rng, tier, C11_VIEWS, quick=10, thorough=100, nmax=9, length=None, big_exact=False,
+                         ss_len=5 if tier == "quick" else 6)
     R = scale_n(tier, 1, 6)
     # all window lengths from the minimum to 20 and a few large ones
     for nm in C11_VIEWS:
@@ -1430,7 +1451,7 @@ def add_clone_hops(js, rng):
             continue   # Add does not implement Clone
         w = max(gen.window_of(x) for x in es)
         t0 = rng.choice([0, 1, max(1, w - 1), w, rng.randint(0, 2 * w + 2)])
-        if isinstance(j, SpecEq) and j.hop is None:
+        if isinstance(j, SpecEq) and j.hop is None and not getattr(j, "small_scope", False):
             j.hop = min(t0, len(j.xs)); n += 1
         elif isinstance(j, Relation) and "hop" not in j.params and j.rel not in ("decomp",):
             j.params["hop"] = min([t0] + [len(s) for s in j.streams]); n += 1
@@ -1445,8 +1466,8 @@ class TypeTwin(Job):
     conversion, ...); rounding itself is far below this tolerance on the short well-conditioned streams used here."""
     kind = "typetwin"
 
-    def __init__(self, e, xs):
-        self.e, self.xs = e, xs
+    def __init__(self, e, xs, values=True):
+        self.e, self.xs, self.values = e, xs, values   # values=False: readiness pattern, panics and finiteness only
 
     def impl_rel_cases(self):
         return [Case("f", gen.render(self.e, "f"), xs_ops("f", self.xs)), Case("s", gen.render(self.e, "s"), xs_ops("s", self.xs))]
@@ -1462,6 +1483,11 @@ class TypeTwin(Job):
                 return dict(explanation="step %d: readiness differs between f64 and f32" % (t + 1), expected=str(u), actual=str(v))
             if u is None:
                 continue
+            if not self.values:
+                if v != v or abs(v) == float("inf"):
+                    return dict(explanation="step %d: the f32 instance reports the non-finite value %r where the f64 instance reports %r"
+                                % (t + 1, v, u), expected=u, actual=v)
+                continue
             if v != v or abs(u - v) > 1e-3 * max(1.0, abs(u)):
                 return dict(explanation="step %d: the f32 instance reports %r where the f64 instance reports %r on a stream that is exact in both types"
                             % (t + 1, v, u), expected=u, actual=v)
@@ -1471,14 +1497,14 @@ class TypeTwin(Job):
         return (gen.render(self.e, "q"), tuple(self.xs))
 
     def to_json(self):
-        return dict(kind=self.kind, e=jexpr(self.e), xs=jvals(self.xs))
+        return dict(kind=self.kind, e=jexpr(self.e), xs=jvals(self.xs), values=self.values)
 
     @staticmethod
     def from_json(d):
-        return TypeTwin(uexpr(d["e"]), uvals(d["xs"]))
+        return TypeTwin(uexpr(d["e"]), uvals(d["xs"]), d.get("values", True))
 
     def shrink_candidates(self):
-        return [TypeTwin(self.e, self.xs[:-1])] if len(self.xs) > 2 else []
+        return [TypeTwin(self.e, self.xs[:-1], self.values)] if len(self.xs) > 2 else []
 
 
 JOB_KINDS["typetwin"] = TypeTwin
@@ -1553,6 +1579,12 @@ def augment_jobs(js, rng, pid, tier):
         if nm not in ("vst", "vsct", "wo", "roc", "lagrsi", "cti", "bent", "eft", "tanh", "alma", "almac"):
             xs2 = gen.stream(rng, rng.choice(["rampup", "sawtooth", "dyadic8"]), 3 * n + 12, n, positive=pos)
             extra.append(TypeTwin(e, xs2))
+        # every view at both float types on zero-heavy / tie-heavy streams (exact in f32): same readiness, no panic, finite
+        if nm != "tanh":
+            xs4 = gen.stream(rng, rng.choice(["zeros", "ties", "ints", "sawtooth", "flat_after_volatile"]), 3 * n + 12, n, positive=pos)
+            if nm == "roc":
+                xs4 = [x if x != 0 else F(1, 2) for x in xs4]
+            extra.append(TypeTwin(e, xs4, values=False))
         # nested in a view of its own type
         e2 = (e[0], e) + tuple(e[2:])
         if nm == "tanh":
@@ -1801,6 +1833,10 @@ def check_property(pid, tier, seed, do_lean=True, write_evidence=True):
         job_kinds=dict(kinds), views=dict(views), samples=samples,
         known_findings_replayed=len(known_lines), failures_matching_known_findings=len(known_hits),
         implementation_line_coverage=impl_cov,
+        exhaustive_small_scope=dict(cases=sum(1 for j, f in results if getattr(j, "small_scope", False)), exhaustive=True,
+                                    rule="every stream of length 6 (8 in the thorough tier; 5 / 6 for the transcendental recursive filters of C11) over a three-letter alphabet {0, 1, -2} ({1/2, 1, 3} for "
+                                         "positive-domain views), window lengths 1, 2, 3, for each view that has a batch definition in this "
+                                         "property: implementation in exact arithmetic vs the Lean spec"),
         search_for_failing_input=search or "not needed: /repo/src equals the sources recorded in source_hashes.json and the correspondence held",
         explanation="proof obligations: theorems of SF/Props/%s.lean audited with #print axioms; tie: Rust harness on /repo's working tree vs Lean model (f64 and exact Q) and vs batch specs; relations evaluated on the implementation in exact arithmetic" % pid,
     )
